@@ -119,13 +119,13 @@ func gotOf(as []sg.Ann, rule string) []string {
 }
 
 // evalPlanted runs the detector on one planted edit and checks the expectations.
-func evalPlanted(run *hx.Run, job int, res *sg.Result, rn *sg.Runner, cache *sg.Cache, prev *sg.Compiled, p *planted, r *hx.Rand) {
+func evalPlanted(run *hx.Run, job int, res *sg.Result, rn *sg.Runner, cache *sg.Cache, prev *sg.Compiled, p *planted, r *hx.Rand) bool {
 	opn := p.op.Name
 	cur, err := cache.Compile(p.cur.Sources())
 	if err != nil {
 		res.Count("edit:compile-error:" + opn)
 		res.Samples = append(res.Samples, map[string]any{"edit-compile-error": err.Error(), "op": opn, "note": p.note, "sources": p.cur.Sources()})
-		return
+		return false
 	}
 	res.Count("applied:" + opn)
 	res.Count("variant:" + p.variant)
@@ -136,7 +136,7 @@ func evalPlanted(run *hx.Run, job int, res *sg.Result, rn *sg.Runner, cache *sg.
 	pe := sg.EvalPair(rn, cur, prev, r.Chance(1, 8))
 	if pe.Err != nil {
 		fail(sg.ErrClass("C03", pe.Err), pe.ErrAt+": "+pe.Err.Error())
-		return
+		return true
 	}
 	if pe.Mismatch != "" {
 		fail("C03-except-not-a-filter", pe.Mismatch)
@@ -172,7 +172,7 @@ func evalPlanted(run *hx.Run, job int, res *sg.Result, rn *sg.Runner, cache *sg.
 		_, _, sets, err := sg.RulesLine(rn, all, cur, prev, pe.Idx)
 		if err != nil {
 			fail(sg.ErrClass("C03", err), "single-rule run: "+err.Error())
-			return
+			return true
 		}
 		single = sets
 		if len(modelled) > 0 {
@@ -230,106 +230,291 @@ func evalPlanted(run *hx.Run, job int, res *sg.Result, rn *sg.Runner, cache *sg.
 			check("v2/single:"+e.Rule, as)
 		}
 	}
+	return true
 }
 
-const maxSitesThorough = 2
+// ---------------------------------------------------------------------------------------------
+// The plan: which operator is planted where.  It is computed up front (deterministically from the
+// seed) over ALL bases so that the choice can be stratified: every (operator, kind of element)
+// pair that is applicable anywhere is planted at least once (quick) / at up to three bases in both
+// variants (thorough), and every (base, operator) pair keeps at least one plant.  The kind of a
+// field site is syntax:shape/type (sg.FieldKind: proto2 / proto3 / editions x singular, implicit,
+// proto3 optional, required, repeated packed / expanded, map, oneof member, extension x scalar,
+// message, enum, group, delimited by a field feature, delimited inherited from the file).
+
+type entry struct {
+	bi, oi int
+	site   sg.Site
+	kind   string
+	mixed  bool
+	why    string // "kind" (stratum) | "base" (top-up: every operator on every base)
+}
+
+type baseT struct {
+	st  sg.State
+	zoo int
+}
+
+func genBase(root *hx.Rand, bi int) baseT {
+	r := root.Fork(uint64(bi))
+	zoo := bi%(sg.NumZoo+1) - 1 // -1 (no zoo), proto2, proto3, editions, editions-inherited
+	st := sg.State{S: sg.GenerateZoo(r, zoo), K: sg.PlainKnobs}
+	if r.Bool() {
+		st.K = sg.RandKnobs(r)
+	}
+	return baseT{st: st, zoo: zoo}
+}
+
+type cand struct {
+	bi     int
+	site   sg.Site
+	kind   string
+	syntax string
+}
+
+// makePlan: for every operator, (1) one plant (thorough: up to three bases, both variants) per
+// KIND of element it is applicable to, preferring sites in a file syntax the operator has not
+// been planted in yet and the least loaded base; (2) one per file SYNTAX still uncovered;
+// (3) top-up at random sites until the operator has minPerOp plants.
+func makePlan(run *hx.Run, root *hx.Rand, bases []baseT) (plan []entry, strata int) {
+	pr := root.Fork(1 << 40)
+	load := make([]int, len(bases))
+	perKind, minPerOp := 1, 10
+	if run.Thorough() {
+		perKind, minPerOp = 3, 24
+	}
+	flip := false
+	for oi, op := range sg.BreakingOps {
+		var cs []cand
+		kindSet, synSet := map[string]bool{}, map[string]bool{}
+		for bi, b := range bases {
+			for _, site := range op.Sites(b.st.S) {
+				c := cand{bi, site, op.SiteKind(b.st.S, site), op.SiteSyntax(b.st.S, site)}
+				cs = append(cs, c)
+				kindSet[c.kind], synSet[c.syntax] = true, true
+			}
+		}
+		if len(cs) == 0 {
+			continue
+		}
+		kinds := make([]string, 0, len(kindSet))
+		for k := range kindSet {
+			kinds = append(kinds, k)
+		}
+		sort.Strings(kinds)
+		syns := make([]string, 0, len(synSet))
+		for k := range synSet {
+			syns = append(syns, k)
+		}
+		sort.Strings(syns)
+		strata += len(kinds) + len(syns)
+		synDone := map[string]int{}
+		nOp := 0
+		add := func(c cand, why string) {
+			variants := []bool{false, true}
+			if !run.Thorough() {
+				flip = !flip
+				variants = []bool{flip}
+			}
+			for _, mixed := range variants {
+				plan = append(plan, entry{bi: c.bi, oi: oi, site: c.site, kind: c.kind + "@" + c.syntax, mixed: mixed, why: why})
+				load[c.bi]++
+				nOp++
+			}
+			synDone[c.syntax]++
+		}
+		// choose among `pool` the candidate with the least covered syntax, then least loaded
+		// base; ties are broken at random (reservoir)
+		choose := func(pool []cand, usedBase map[int]bool) (cand, bool) {
+			var best cand
+			found, ties := false, 0
+			for _, c := range pool {
+				if usedBase[c.bi] {
+					continue
+				}
+				better := !found || synDone[c.syntax] < synDone[best.syntax] ||
+					(synDone[c.syntax] == synDone[best.syntax] && load[c.bi] < load[best.bi])
+				same := found && synDone[c.syntax] == synDone[best.syntax] && load[c.bi] == load[best.bi]
+				switch {
+				case better:
+					best, found, ties = c, true, 1
+				case same:
+					ties++
+					if pr.Intn(ties) == 0 {
+						best = c
+					}
+				}
+			}
+			return best, found
+		}
+		for _, k := range kinds {
+			var pool []cand
+			for _, c := range cs {
+				if c.kind == k {
+					pool = append(pool, c)
+				}
+			}
+			used := map[int]bool{}
+			for n := 0; n < perKind; n++ {
+				c, ok := choose(pool, used)
+				if !ok {
+					break
+				}
+				used[c.bi] = true
+				add(c, "kind")
+			}
+		}
+		for _, sy := range syns {
+			if synDone[sy] > 0 {
+				continue
+			}
+			var pool []cand
+			for _, c := range cs {
+				if c.syntax == sy {
+					pool = append(pool, c)
+				}
+			}
+			if c, ok := choose(pool, map[int]bool{}); ok {
+				add(c, "syntax")
+			}
+		}
+		for tries := 0; nOp < minPerOp && tries < 4*minPerOp; tries++ {
+			add(hx.Pick(pr, cs), "top-up")
+		}
+	}
+	sort.SliceStable(plan, func(i, j int) bool {
+		if plan[i].bi != plan[j].bi {
+			return plan[i].bi < plan[j].bi
+		}
+		return plan[i].oi < plan[j].oi
+	})
+	return plan, strata
+}
 
 func main() {
 	run := hx.Start("C03")
 	// probe once, before the parallel jobs: which model dispatch matches this tree
 	run.Set("tree_has_package_last_element_fix", sg.TreeHasPackageFix())
 	root := hx.NewRand(run.Seed)
-	nOps := len(sg.BreakingOps)
-	nBases := run.N(30, 40) // thorough adds both variants and up to maxSitesThorough elements per operator; in.txt stays < 200 MB
-	only := run.Only
-	onlyBase, onlyOp := -1, -1
-	if only >= 0 {
-		onlyBase, onlyOp = only/nOps, only%nOps
+	nBases := run.N(25, 40) // in.txt stays < 200 MB in the thorough tier
+	bases := make([]baseT, nBases)
+	for bi := range bases {
+		bases[bi] = genBase(root, bi)
 	}
-	// job unit: (base, chunk of operators); --only addresses base*nOps + operator index
+	plan, strata := makePlan(run, root, bases)
+	run.Set("plan_entries", len(plan))
+	run.Set("plan_strata", strata)
+	// job unit: up to `chunk` consecutive plan entries of one base; --only addresses a plan entry
 	const chunk = 9
-	nChunks := (nOps + chunk - 1) / chunk
-	if only >= 0 {
-		run.Only = onlyBase*nChunks + onlyOp/chunk
-	}
-	sets := sg.RunJobs(run, nBases*nChunks, func(ji int, rn *sg.Runner) *sg.Result {
-		bi, ci := ji/nChunks, ji%nChunks
-		res := sg.NewResult()
-		r := root.Fork(uint64(bi))
-		cache := sg.NewCache()
-		base := sg.State{S: sg.Generate(r), K: sg.PlainKnobs}
-		if r.Bool() {
-			base.K = sg.RandKnobs(r)
+	type jobT struct{ lo, hi int }
+	var jobs []jobT
+	jobOf := make([]int, len(plan))
+	for i := 0; i < len(plan); {
+		j := i
+		for j < len(plan) && j-i < chunk && plan[j].bi == plan[i].bi {
+			j++
 		}
+		for x := i; x < j; x++ {
+			jobOf[x] = len(jobs)
+		}
+		jobs = append(jobs, jobT{i, j})
+		i = j
+	}
+	only := run.Only
+	if only >= 0 {
+		if only >= len(plan) {
+			fmt.Println("--only: no such plan entry")
+			return
+		}
+		run.Only = jobOf[only]
+	}
+	firstJobOfBase := map[int]int{}
+	for ji, j := range jobs {
+		if _, ok := firstJobOfBase[plan[j.lo].bi]; !ok {
+			firstJobOfBase[plan[j.lo].bi] = ji
+		}
+	}
+	sets := sg.RunJobs(run, len(jobs), func(ji int, rn *sg.Runner) *sg.Result {
+		res := sg.NewResult()
+		jb := jobs[ji]
+		bi := plan[jb.lo].bi
+		base := bases[bi].st
+		cache := sg.NewCache()
+		first := firstJobOfBase[bi] == ji
 		prev, err := cache.Compile(base.Sources())
 		if err != nil {
-			if ci == 0 {
+			if first {
 				res.Count("gen:compile-error")
+				res.Samples = append(res.Samples, map[string]any{"gen-compile-error": err.Error(), "sources": base.Sources()})
 			}
-			res.Samples = append(res.Samples, map[string]any{"gen-compile-error": err.Error(), "sources": base.Sources()})
 			return res
 		}
-		if ci == 0 {
+		if first {
 			res.Count("gen:ok")
+			res.Count(fmt.Sprintf("zoo:%d", bases[bi].zoo))
 			sg.CountSchema(res, base.S)
 		}
-		for oi, op := range sg.BreakingOps {
-			if oi/chunk != ci || (onlyOp >= 0 && oi != onlyOp) {
+		for pi := jb.lo; pi < jb.hi; pi++ {
+			if only >= 0 && pi != only {
 				continue
 			}
-			job := bi*nOps + oi
-			ro := r.Fork(uint64(oi))
-			sites := op.Sites(base.S)
-			if len(sites) == 0 {
-				res.Count("inapplicable:" + op.Name)
-				continue
-			}
-			if run.Thorough() {
-				hx.Shuffle(ro, sites)
-				if len(sites) > maxSitesThorough {
-					sites = sites[:maxSitesThorough]
+			e := plan[pi]
+			op := sg.BreakingOps[e.oi]
+			rv := root.Fork(uint64(1<<41) + uint64(pi))
+			kindOnly, syn, _ := strings.Cut(e.kind, "@")
+			keys := []string{op.Name + "|" + kindOnly, op.Name + "|@" + syn}
+			p, ok := plant(base, op, e.site, e.mixed, rv, res)
+			if !ok {
+				// the site turned out not to be applicable: try the other sites of the same
+				// kind and syntax in this base (alone), so that the stratum is not lost
+				res.Count("not-applicable-after-all:" + op.Name)
+				alts := op.Sites(base.S)
+				if e.mixed {
+					alts = append([]sg.Site{e.site}, alts...) // first the same site, alone
 				}
-			} else {
-				// the file-option operators rotate through the tracked options with the base
-				// index so that every FILE_SAME_* rule is planted in every run
-				var pref []sg.Site
-				if strings.HasPrefix(op.Name, "FileOption") {
-					want := sg.TrackedFileOptions[bi%len(sg.TrackedFileOptions)].Name
-					for _, x := range sites {
-						if x.Name == want {
-							pref = append(pref, x)
-						}
-					}
-				}
-				if len(pref) > 0 {
-					sites = []sg.Site{hx.Pick(ro, pref)}
-				} else {
-					sites = []sg.Site{hx.Pick(ro, sites)}
-				}
-			}
-			for si, site := range sites {
-				// quick: one variant per (base, operator); thorough: both
-				variants := []bool{ro.Bool()}
-				if run.Thorough() {
-					variants = []bool{false, true}
-				}
-				for _, mixed := range variants {
-					rv := ro.Fork(uint64(si*2 + 1))
-					if mixed {
-						rv = ro.Fork(uint64(si*2 + 2))
-					}
-					p, ok := plant(base, op, site, mixed, rv, res)
-					if !ok {
-						res.Count("not-applicable-after-all:" + op.Name)
+				for ai, alt := range alts {
+					if (alt == e.site && !(e.mixed && ai == 0)) || op.SiteKind(base.S, alt) != kindOnly || op.SiteSyntax(base.S, alt) != syn {
 						continue
 					}
-					evalPlanted(run, job, res, rn, cache, prev, p, rv)
+					if p, ok = plant(base, op, alt, false, rv, res); ok {
+						res.Count("replanted-at-alternative-site:" + op.Name)
+						break
+					}
 				}
+				if !ok {
+					continue
+				}
+			}
+			p.note = "{" + e.kind + "} " + p.note
+			if evalPlanted(run, pi, res, rn, cache, prev, p, rv) {
+				res.Count("plan:" + e.why)
+				res.Sets["operator_kind_planted"] = append(res.Sets["operator_kind_planted"], keys...)
+				res.Count("kind:" + kindOnly)
+				res.Count("syntax-of-site:" + syn)
 			}
 		}
 		return res
 	})
 	run.Only = only
+	// which applicable (operator, kind) pairs ended up without an evaluated plant
+	planted := map[string]bool{}
+	for _, k := range sets["operator_kind_planted"] {
+		planted[k] = true
+	}
+	wanted := map[string]bool{}
+	for _, e := range plan {
+		kindOnly, syn, _ := strings.Cut(e.kind, "@")
+		wanted[sg.BreakingOps[e.oi].Name+"|"+kindOnly] = true
+		wanted[sg.BreakingOps[e.oi].Name+"|@"+syn] = true
+	}
+	var unhit []string
+	for k := range wanted {
+		if !planted[k] {
+			unhit = append(unhit, k)
+		}
+	}
+	sort.Strings(unhit)
+	run.Set("operator_kind_pairs_not_planted", unhit)
 	for k, v := range sets {
 		run.Set(k, v)
 	}
